@@ -4,7 +4,10 @@
 //
 // Case file: one case per line, space separated `key=value` tokens (byte strings hex encoded):
 //   id=<n> bin=<hex> arg=<hex>* env=<hex>* cwd=<hex> uid=<n> gid=<n> pg=<n|-1 (probe's own pgid)>
-//   in=|out=|err= <i|n|p|r<hexpath>|w<hexpath>|x<fd>>   (absent = not configured)
+//   in=|out=|err= <i|n|p|r<hexpath>|w<hexpath>|b<hexpath>|s<stream>|x<fd>>   (absent = not configured)
+//       r/w/b: Stdio::RawFd of a file opened here read-only / write-append / read-write; s<k>: the very same
+//       descriptor as stream k (k < this stream); x<fd>: that descriptor number as is (0-2 = the caller's own
+//       standard streams, which the spawn takes over and closes: they are saved and restored around the case)
 //   pre=<count of succeeding closures>  prefail=<index>:<errno>   (closure <index> returns Err(errno))
 //   inj=<scope>,<nr>,<k>,<ret>,<count>*   payload=<hex>   wait2=1 (wait twice)   trywait=1 (poll try_wait)
 //
@@ -90,6 +93,12 @@ mod sys {
     pub fn close(fd: isize) -> isize {
         unsafe { sc6(3, fd as usize, 0, 0, 0, 0, 0) }
     }
+    pub fn dupfd_cloexec(fd: isize, min: usize) -> isize {
+        unsafe { sc6(72, fd as usize, 1030, min, 0, 0, 0) }
+    }
+    pub fn dup3(old: isize, new: isize) -> isize {
+        unsafe { sc6(292, old as usize, new as usize, 0, 0, 0, 0) }
+    }
     pub fn fcntl_getfd(fd: isize) -> isize {
         unsafe { sc6(72, fd as usize, 1, 0, 0, 0, 0) }
     }
@@ -154,6 +163,8 @@ enum Io {
     Pipe,
     FileR(Vec<u8>), // NUL terminated path
     FileW(Vec<u8>),
+    FileRW(Vec<u8>),
+    Share(usize),
     Raw(i32),
 }
 
@@ -182,6 +193,8 @@ fn parse_io(v: &[u8]) -> Option<Io> {
         b'p' => Some(Io::Pipe),
         b'r' => Some(Io::FileR(cstr(unhex(&v[1..])?))),
         b'w' => Some(Io::FileW(cstr(unhex(&v[1..])?))),
+        b'b' => Some(Io::FileRW(cstr(unhex(&v[1..])?))),
+        b's' => Some(Io::Share(num(&v[1..])? as usize)),
         b'x' => Some(Io::Raw(num(&v[1..])? as i32)),
         _ => None,
     }
@@ -340,6 +353,11 @@ fn run_case(c: &Case, root_pid: i64, own_pgid: i64) {
         let fd = match &c.io[s] {
             Io::FileR(p) => sys::open(p, 0o2000000, 0),
             Io::FileW(p) => sys::open(p, 0o2000000 | 0o1 | 0o100 | 0o2000, 0o666), // WRONLY|CREAT|APPEND|CLOEXEC
+            Io::FileRW(p) => sys::open(p, 0o2000000 | 0o2 | 0o100, 0o666), // RDWR|CREAT|CLOEXEC
+            Io::Share(k) if *k < s => match raw[*k] {
+                Some(fd) => fd as isize,
+                None => -1,
+            },
             Io::Raw(n) => *n as isize,
             _ => continue,
         };
@@ -351,6 +369,16 @@ fn run_case(c: &Case, root_pid: i64, own_pgid: i64) {
         if let Some((dev, ino, _)) = sys::fstat(fd) {
             marker::report(K_RAWFD, id, s as i64, dev as i64, ino as i64);
             raw_id[s] = Some((dev, ino));
+        }
+    }
+    // the caller's own standard descriptors handed over as RawFd are closed by the spawn (ownership transfer):
+    // keep a CLOEXEC copy to put them back afterwards
+    let mut saved: [isize; 3] = [-1, -1, -1];
+    for s in 0..3 {
+        if let Io::Raw(n) = &c.io[s] {
+            if (0..3).contains(n) && saved[*n as usize] < 0 {
+                saved[*n as usize] = sys::dupfd_cloexec(*n as isize, 500);
+            }
         }
     }
     let Ok(bin) = UnixStr::try_from_bytes(&c.bin) else {
@@ -427,7 +455,7 @@ fn run_case(c: &Case, root_pid: i64, own_pgid: i64) {
             Io::Inherit => Stdio::Inherit,
             Io::Null => Stdio::Null,
             Io::Pipe => Stdio::MakePipe,
-            Io::FileR(_) | Io::FileW(_) | Io::Raw(_) => match Fd::try_new(raw[s].unwrap_or(-1)) {
+            Io::FileR(_) | Io::FileW(_) | Io::FileRW(_) | Io::Share(_) | Io::Raw(_) => match Fd::try_new(raw[s].unwrap_or(-1)) {
                 Ok(fd) => Stdio::RawFd(fd),
                 Err(_) => continue,
             },
@@ -476,10 +504,16 @@ fn run_case(c: &Case, root_pid: i64, own_pgid: i64) {
         sys::exit_group(77);
     }
     marker::disarm();
+    for n in 0..3 {
+        if saved[n] >= 0 {
+            sys::dup3(saved[n], n as isize);
+            sys::close(saved[n]);
+        }
+    }
     // a RawFd descriptor is owned by the spawn and normally closed by it; when spawn failed before
     // taking it over it is still ours: close it if (and only if) it still designates the same file
     for s in 0..3 {
-        if let (Io::FileR(_) | Io::FileW(_), Some(fd)) = (&c.io[s], raw[s]) {
+        if let (Io::FileR(_) | Io::FileW(_) | Io::FileRW(_), Some(fd)) = (&c.io[s], raw[s]) {
             if let (Some(now), Some(was)) = (sys::fstat(fd as isize), raw_id[s]) {
                 if (now.0, now.1) == was {
                     sys::close(fd as isize);
